@@ -55,7 +55,8 @@ theorem C14t_measure_decreases (s s' : St) (e : Ev) (h : step s e = some s') :
     s'.n = s.n ∧
     (stutter s e = true → s' = s) ∧
     (moving s e = true → mu s' < mu s) ∧
-    (envEv e = true → mu s' ≤ mu s + (if isInv e then invCost s else 0)) :=
+    (envEv e = true → mu s' ≤ mu s + (if isInv e then invCost s else 0)) ∧
+    (∀ a, e = .done a → mu s' < mu s) :=
   mu_step s s' e h
 
 /-- the cost of one operation, spelled out -/
@@ -126,12 +127,10 @@ theorem C14t_unrestricted_measure_impossible :
     `C14_at_most_once`). -/
 theorem C14t_bounded (n K : Nat) (ident : Nat → Nat) (fixCas fixCtor : Bool) (srcs : Nat) (log : List Ev)
     (s : St) (h : runLog step (init n K ident fixCas fixCtor srcs) log = some s) :
-    nMoves (init n K ident fixCas fixCtor srcs) log + mu s ≤ (10 * n + 21) * nInv log := by
+    nMoves (init n K ident fixCas fixCtor srcs) log + mu s ≤ n + (10 * n + 21) * nInv log := by
   have := run_bound _ _ _ h
   rw [C14t_invCost] at this
-  have h0 : mu (init n K ident fixCas fixCtor srcs) = 0 := by
-    simp only [mu, init, List.length_nil, Nat.mul_zero, Nat.zero_add]
-    exact sumTo_eq_zero (fun t _ => rfl)
+  have h0 : mu (init n K ident fixCas fixCtor srcs) = n := mu_init n K ident fixCas fixCtor srcs
   rw [h0] at this
   simpa [init] using this
 
